@@ -100,9 +100,10 @@ Proof. exact owed_no_step. Qed.
 
 From Minimq Require Import Sends.
 
-(* and with no assumption on the timers: the drain decides once, before its first step, whether a PINGREQ joins the queue *)
+(* and with no assumption on the timers, for every transport whose writes take no time (`Calm`: no slow-write event left in
+   its script — the fragmentation is arbitrary): the drain decides once, before its first step, whether a PINGREQ joins the queue *)
 Theorem C15_drain_writes_owed_every_state : forall fuel w w',
-  WInv (w_sess w) -> flush_outbound fuel w = (w', ODone tt) ->
+  WInv (w_sess w) -> Calm w -> flush_outbound fuel w = (w', ODone tt) ->
   w_wire w' = w_wire w ++ owed (s_ob (fst (maybe_queue_pingreq (w_sess w) (w_now w)))) /\ next_step (s_ob (w_sess w')) = None.
 Proof. exact flush_outbound_wire_any. Qed.
 
